@@ -383,7 +383,12 @@ func (ego *atFloat) serialize() string {
 	if abs >= math.Pow10(6) || (abs > 0 && abs <= math.Pow10(-6)) {
 		return strconv.FormatFloat(val, 'e', -1, 64)
 	}
-	return strconv.FormatFloat(val, 'f', -1, 64)
+	str := strconv.FormatFloat(val, 'f', -1, 64)
+	if val == math.Trunc(val) {
+		// Whole number, keeping the fraction so the value is parsed back as a float
+		str += ".0"
+	}
+	return str
 }
 
 /*
